@@ -274,16 +274,19 @@ func CalculateSaleAmountAndCheck(coinFrom CalculateCoin, value *big.Int) (*big.I
 			)),
 		}
 	}
-	value = formula.CalculateSaleAmount(coinFrom.Volume(), coinFrom.Reserve(), coinFrom.Crr(), value)
+	saleAmount := formula.CalculateSaleAmount(coinFrom.Volume(), coinFrom.Reserve(), coinFrom.Crr(), value)
 	if coinFrom.ID().IsBaseCoin() {
-		return value, nil
+		return saleAmount, nil
 	}
 
+	// the reserve shrinks by `value` (base coin), not by the amount of coins sold: the minimal-reserve rule is about
+	// `value`. Checking the coin amount let a purchase take the whole reserve; a coin with zero volume and reserve
+	// makes every later conversion through it panic.
 	if errResp := CheckReserveUnderflow(coinFrom, value); errResp != nil {
 		return nil, errResp
 	}
 
-	return value, nil
+	return saleAmount, nil
 }
 
 func CalculateSaleReturnAndCheck(coinFrom CalculateCoin, value *big.Int) (*big.Int, *Response) {
